@@ -208,12 +208,15 @@ func verifC02NativeFormat() {
 		must(err)
 		errs, err := l.LintFiles(paths, nil)
 		verifCheck(err == nil, "lint-failed")
-		want := ""
+		want, got := "", ""
 		for _, p := range paths {
-			want += p + "\n"
+			want += filepath.Base(p) + "\n"
+		}
+		for _, ln := range strings.Split(strings.TrimSuffix(buf.String(), "\n"), "\n") {
+			got += filepath.Base(ln) + "\n" // the printed path is relative to the working directory
 		}
 		verifCheckf(len(errs) == 3, "returned-diagnostics-depend-on-goroutine-completion-order", strconv.Itoa(len(errs)))
-		verifCheckf(buf.String() == want, "formatted-output-depends-on-goroutine-completion-order", buf.String())
+		verifCheckf(got == want, "formatted-output-depends-on-goroutine-completion-order", buf.String())
 	}
 	verifReach("compared")
 }
